@@ -171,8 +171,18 @@ C08_FinalRollbackExact(o) ==
                    \cup (undone \cap SSet(o.exits))
        IN k > 0 => SSet(o.after) = want
 
+(* a fault in the global AnyState handler comes after every FooEnd / FooState  *)
+(* has completed: nothing is rolled back                                       *)
+C08_AnyStateFaultKeepsFinals(o) ==
+  LET ff == FiredFaults(o)
+      fin == {i \in ff : o.hlog[i].h[1] \in {"end", "state"}}
+      any == {i \in ff : o.hlog[i].h[1] = "anystate"}
+  IN (any # {} /\ fin = {} /\ \A i \in ff : ~IsNegName(o.hlog[i].h))
+       => SSet(o.after) = SSet(o.target)
+
 C08_Tx(idx, o) ==
   /\ C08_Parity(idx, o)
   /\ C08_NegFaultFrozen(o)
   /\ C08_FinalRollbackExact(o)
+  /\ C08_AnyStateFaultKeepsFinals(o)
 =============================================================================
